@@ -85,6 +85,23 @@ def run(rep, tier, rng):
         to_specs.append(spec)
         cases.append([10] + spec)
         meta.append(("to", spec))
+    # multipoints whose neighbouring points share X and Y (stacked along Z or M, or plainly repeated): every point is
+    # a point of the geometry
+    for code in (8, 28, 18):
+        for reps in ([2], [1, 3], [2, 2, 1], [4]):
+            d = shapes.dim_of(code)
+            pts = []
+            for r in reps:
+                base = shapes.gen_pt(rng, d, "small")
+                for j in range(r):
+                    q = list(base)
+                    for t in range(2, d):
+                        q[t] = shapes.f2b(float(j + t))
+                    pts.append(q)
+            spec = [code] + shapes.flat_pts(pts)
+            to_specs.append(spec)
+            cases.append([10] + spec)
+            meta.append(("to", spec))
     # ring-only multipatches: every sequence of ring kinds {OuterRing, InnerRing, FirstRing, Ring} of length <= 3 and a
     # sample of longer ones (grouping into polygons depends on the order of the kinds)
     import itertools
